@@ -32,7 +32,7 @@ def certs():
 
 @st.composite
 def fp_entry(draw):
-    kind = draw(st.sampled_from(["good", "good", "good", "bad", "unsupported"]))
+    kind = draw(st.sampled_from(["good", "good", "good", "good", "good", "bad", "malformed", "unsupported", "unsupported"]))
     e = {"kind": kind}
     if kind == "unsupported":
         e["algo"] = draw(st.sampled_from(UNSUPPORTED))
@@ -43,6 +43,9 @@ def fp_entry(draw):
         e["value_case"] = draw(st.sampled_from(["upper", "lower", "mixed"]))
         if kind == "bad":
             e["flip"] = draw(st.integers(0, 63))
+        if kind == "malformed":
+            # a supported hash whose value is not a digest of that hash at all
+            e["how"] = draw(st.sampled_from(["not-hex", "cut-char", "cut-byte", "extra-byte", "empty", "other-hash"]))
     return e
 
 
@@ -78,6 +81,10 @@ def build_fingerprints(entries: list, cert) -> list:
             pos = hexdigits[e.get("flip", 0) % len(hexdigits)]
             repl = "0" if value[pos] != "0" else "1"
             value = value[:pos] + repl + value[pos + 1:]
+        if e["kind"] == "malformed":
+            other = D.certificate_digest(cert._cert, next(a for a in SUPPORTED if a != e["algo"]))
+            value = {"not-hex": "bogus_fingerprint", "cut-char": value[:-1], "cut-byte": value[:-3], "extra-byte": value + ":00",
+                     "empty": "", "other-hash": other}.get(e.get("how"), "bogus_fingerprint")
         value = {"upper": value.upper(), "lower": value.lower(), "mixed": mixcase(value)}[e.get("value_case", "upper")]
         algo = {"lower": e["algo"], "upper": e["algo"].upper(), "mixed": mixcase(e["algo"])}[e.get("algo_case", "lower")]
         out.append(D.RTCDtlsFingerprint(algorithm=algo, value=value))
@@ -319,7 +326,8 @@ CHECK = Check(
     rule=(
         "Two real RTCDtlsTransport objects (OpenSSL DTLS, libsrtp) over an in-memory ICE pair. Per side a list of 1-4 remote "
         "fingerprints over {correct sha-256/384/512 with the value in upper/lower/mixed case and the algorithm name in any "
-        "case, a copy with one hex digit changed, an unsupported algorithm (sha-1, md5, sha-224, sha256, ...) with any value}; "
+        "case, a copy with one hex digit changed, a supported hash with a value that is no digest of it (not hex, one character or "
+        "byte short or long, empty, another hash's digest), an unsupported algorithm (sha-1, md5, sha-224, sha256, ...) with any value}; "
         "per side a non-empty ordered sub-list of the SRTP profiles; roles client/server either way or auto with either ICE "
         "role; then up to 12 RTP / RTCP / data units in both directions, some with one bit flipped in the ciphertext datagram. "
         "Reference policy P = at least one supported entry and every supported entry matches (case-insensitively). Oracle: a "
